@@ -42,6 +42,31 @@ func errorConstructors(c *core.Ctx) map[string][2]string {
 		if pk == nil {
 			return out
 		}
+		// a shared builder fills Code / Message from its parameters (newErrorInfo(code, message, detail)); the constructors
+		// are then the functions that call it with constants in those places
+		type builder struct{ code, msg int } // parameter index, -1 when the literal holds a constant itself
+		builders := map[*types.Func]builder{}
+		builderConst := map[*types.Func][2]string{}
+		paramIndex := func(fd *ast.FuncDecl, e ast.Expr) int {
+			id, ok := ast.Unparen(e).(*ast.Ident)
+			if !ok || fd.Type.Params == nil {
+				return -1
+			}
+			obj := pk.TypesInfo.Uses[id]
+			i := 0
+			for _, f := range fd.Type.Params.List {
+				for _, nm := range f.Names {
+					if pk.TypesInfo.Defs[nm] == obj && obj != nil {
+						return i
+					}
+					i++
+				}
+				if len(f.Names) == 0 {
+					i++
+				}
+			}
+			return -1
+		}
 		for _, fd := range funcDecls(pk) {
 			ast.Inspect(fd.Body, func(n ast.Node) bool {
 				cl, ok := n.(*ast.CompositeLit)
@@ -53,6 +78,7 @@ func errorConstructors(c *core.Ctx) map[string][2]string {
 					return true
 				}
 				code, msg := "?", "?"
+				b := builder{-1, -1}
 				for _, el := range cl.Elts {
 					kv, ok := el.(*ast.KeyValueExpr)
 					if !ok {
@@ -69,11 +95,63 @@ func errorConstructors(c *core.Ctx) map[string][2]string {
 						case "Message":
 							msg = s
 						}
+						continue
 					}
+					if pi := paramIndex(fd, kv.Value); pi >= 0 {
+						switch k.Name {
+						case "Code":
+							b.code = pi
+						case "Message":
+							b.msg = pi
+						}
+					}
+				}
+				if f, isFn := pk.TypesInfo.Defs[fd.Name].(*types.Func); isFn && fd.Recv == nil && (b.code >= 0 || b.msg >= 0) {
+					builders[f] = b
+					builderConst[f] = [2]string{code, msg}
+					return true
 				}
 				out[fd.Name.Name] = [2]string{code, msg}
 				return true
 			})
+		}
+		if len(builders) > 0 {
+			for _, fd := range funcDecls(pk) {
+				if f, isFn := pk.TypesInfo.Defs[fd.Name].(*types.Func); isFn {
+					if _, isB := builders[f]; isB {
+						continue
+					}
+				}
+				ast.Inspect(fd.Body, func(n ast.Node) bool {
+					call, ok := n.(*ast.CallExpr)
+					if !ok {
+						return true
+					}
+					f, ok := typeutilCallee(pk, call).(*types.Func)
+					if !ok {
+						return true
+					}
+					b, isB := builders[f]
+					if !isB {
+						return true
+					}
+					cm := builderConst[f]
+					if b.code >= 0 && b.code < len(call.Args) {
+						cm[0] = "?"
+						if s, ok := constString(pk, call.Args[b.code]); ok {
+							cm[0] = s
+						}
+					}
+					if b.msg >= 0 && b.msg < len(call.Args) {
+						cm[1] = "?"
+						if s, ok := constString(pk, call.Args[b.msg]); ok {
+							cm[1] = s
+						}
+					}
+					out[fd.Name.Name] = cm
+					return true
+				})
+			}
 		}
 		return out
 	})
@@ -461,10 +539,37 @@ func runReserved(c *core.Ctx) {
 		})
 	}
 	// reserved names: constant arguments of the boolean call guarding the ErrRepoNotAllowed refusal in a RepoGet
+	// (in RepoGet itself or in a step of the store package it hands the lookup-or-create to, two levels)
+	declOf := map[*types.Func]*ast.FuncDecl{}
 	for _, fd := range funcDecls(sp) {
-		if fd.Name.Name != "RepoGet" {
-			continue
+		if f, ok := sp.TypesInfo.Defs[fd.Name].(*types.Func); ok {
+			declOf[f] = fd
 		}
+	}
+	var frames []*ast.FuncDecl
+	inFrames := map[*ast.FuncDecl]bool{}
+	var addFrame func(fd *ast.FuncDecl, depth int)
+	addFrame = func(fd *ast.FuncDecl, depth int) {
+		if fd == nil || fd.Body == nil || inFrames[fd] || depth > 2 {
+			return
+		}
+		inFrames[fd] = true
+		frames = append(frames, fd)
+		ast.Inspect(fd.Body, func(n ast.Node) bool {
+			if call, ok := n.(*ast.CallExpr); ok {
+				if f, ok := typeutilCallee(sp, call).(*types.Func); ok {
+					addFrame(declOf[f], depth+1)
+				}
+			}
+			return true
+		})
+	}
+	for _, fd := range funcDecls(sp) {
+		if fd.Name.Name == "RepoGet" {
+			addFrame(fd, 0)
+		}
+	}
+	for _, fd := range frames {
 		mentionsRefusal := func(stmts []ast.Stmt) bool {
 			m := false
 			for _, st := range stmts {
@@ -801,19 +906,26 @@ func parseSetDefaults(c *core.Ctx) *defaultsInfo {
 						}
 						di.pos[p] = x.Pos()
 						rhs := x.Rhs[i]
-						if call, ok := rhs.(*ast.CallExpr); ok {
-							if id, ok := call.Fun.(*ast.Ident); ok && id.Name == "boolDefault" && len(call.Args) == 2 {
-								ap := dropRoot(resolve(call.Args[0]))
-								if ap != p {
-									di.unguarded = append(di.unguarded, fmt.Sprintf("%s = boolDefault(%s, …): the default of another setting is applied", p, ap))
+						if call, ok := rhs.(*ast.CallExpr); ok && len(call.Args) == 2 {
+							// x = keepOrDefault(x, const): a helper of the package that returns its first argument unless that is
+							// nil / the zero value, and its second argument (or a pointer to it) otherwise
+							if hf, ok := typeutilCallee(pk, call).(*types.Func); ok && hf.Pkg() == pk.Types {
+								if kind := keepOrDefault(c, hf); kind != "" {
+									ap := dropRoot(resolve(call.Args[0]))
+									if ap != p {
+										di.unguarded = append(di.unguarded, fmt.Sprintf("%s = %s(%s, …): the default of another setting is applied", p, hf.Name(), ap))
+									}
+									if v := constOf(pk, call.Args[1]); v != nil {
+										di.def[p] = v
+									}
+									if kind == "nil" {
+										di.boolHelper = true
+										if top {
+											di.topLevel[p] = true
+										}
+									}
+									continue
 								}
-								if v := constOf(pk, call.Args[1]); v != nil {
-									di.def[p] = v
-								}
-								if top {
-									di.topLevel[p] = true
-								}
-								continue
 							}
 						}
 						// must be guarded by a zero test of the same path
@@ -887,24 +999,122 @@ func parseSetDefaults(c *core.Ctx) *defaultsInfo {
 			}
 		}
 		walk(fd.Body.List, nil, true)
-		// boolDefault returns its first argument when non-nil
-		if bd := findFunc(pk, "", "boolDefault"); bd != nil && len(bd.Body.List) >= 1 && bd.Type.Params != nil && len(bd.Type.Params.List) >= 1 {
-			first := ""
-			if len(bd.Type.Params.List[0].Names) > 0 {
-				first = bd.Type.Params.List[0].Names[0].Name
+		return di
+	})
+}
+
+// keepOrDefault: f(cur, def) returns cur on every return reached with cur != nil (kind "nil") or cur != zero value (kind
+// "zero"), and def (or a pointer to a copy of it) on every return reached with cur == nil / zero; "" otherwise.
+func keepOrDefault(c *core.Ctx, f *types.Func) string {
+	fn := c.P.SSA.FuncValue(f)
+	if fn == nil || len(fn.Blocks) == 0 || len(fn.Params) != 2 || fn.Signature.Results().Len() != 1 {
+		return ""
+	}
+	cur, def := fn.Params[0], fn.Params[1]
+	isCur := func(v ssa.Value) bool { return an.Origin(v) == ssa.Value(cur) || an.Strip(v) == ssa.Value(cur) }
+	isZero := func(v ssa.Value) bool {
+		v = an.Strip(v)
+		if k, ok := v.(*ssa.Const); ok {
+			if k.Value == nil {
+				return true
 			}
-			if ifs, ok := bd.Body.List[0].(*ast.IfStmt); ok {
-				if be, ok := ifs.Cond.(*ast.BinaryExpr); ok && be.Op == token.NEQ && selPath(be.X) == first && selPath(be.Y) == "nil" {
-					if len(ifs.Body.List) == 1 {
-						if rs, ok := ifs.Body.List[0].(*ast.ReturnStmt); ok && len(rs.Results) == 1 && selPath(rs.Results[0]) == first {
-							di.boolHelper = true
-						}
-					}
+			switch k.Value.Kind() {
+			case constant.Int, constant.Float:
+				return constant.Sign(k.Value) == 0
+			case constant.String:
+				return constant.StringVal(k.Value) == ""
+			case constant.Bool:
+				return !constant.BoolVal(k.Value)
+			}
+			return false
+		}
+		// `var zero T`: a local that is never assigned
+		if ld, ok := v.(*ssa.UnOp); ok && ld.Op == token.MUL {
+			if al, ok := ld.X.(*ssa.Alloc); ok {
+				if st, unk := an.CellStores(al); !unk && len(st) == 0 {
+					return true
 				}
 			}
 		}
-		return di
-	})
+		return false
+	}
+	isDef := func(v ssa.Value) bool {
+		if an.Origin(v) == ssa.Value(def) || an.Strip(v) == ssa.Value(def) {
+			return true
+		}
+		// &def: the parameter spilled into a cell whose address is returned
+		if al, ok := an.Strip(v).(*ssa.Alloc); ok && al.Referrers() != nil {
+			stores, fromDef := 0, false
+			for _, ref := range *al.Referrers() {
+				if st, ok := ref.(*ssa.Store); ok && st.Addr == ssa.Value(al) {
+					stores++
+					fromDef = st.Val == ssa.Value(def)
+				}
+			}
+			return stores == 1 && fromDef
+		}
+		return false
+	}
+	kind := ""
+	ok := true
+	n := 0
+	for _, b := range fn.Blocks {
+		if len(b.Instrs) == 0 {
+			continue
+		}
+		ret, isRet := b.Instrs[len(b.Instrs)-1].(*ssa.Return)
+		if !isRet || len(ret.Results) != 1 {
+			continue
+		}
+		n++
+		// what the guards say about cur on the way to this return: 1 = zero/nil, 2 = set
+		state := 0
+		for _, g := range an.GuardingEdges(b) {
+			if g.Synthetic() {
+				continue
+			}
+			if x, nilSucc, isNil := an.NilTest(g.If()); isNil && isCur(x) {
+				kind = "nil"
+				if g.Succ == nilSucc {
+					state = 1
+				} else {
+					state = 2
+				}
+				continue
+			}
+			if x, y, op, isCmp := an.CmpTest(g.If()); isCmp && (op == token.EQL || op == token.NEQ) {
+				other := y
+				if !isCur(x) {
+					if !isCur(y) {
+						continue
+					}
+					other = x
+				}
+				if !isZero(other) {
+					continue
+				}
+				if kind == "" {
+					kind = "zero"
+				}
+				eq := (op == token.EQL) == (g.Succ == 0)
+				if eq {
+					state = 1
+				} else {
+					state = 2
+				}
+			}
+		}
+		switch {
+		case state == 2 && isCur(ret.Results[0]):
+		case state == 1 && isDef(ret.Results[0]):
+		default:
+			ok = false
+		}
+	}
+	if !ok || n < 2 || kind == "" {
+		return ""
+	}
+	return kind
 }
 
 func init() {
@@ -917,7 +1127,7 @@ func init() {
 				return
 			}
 			c.SetTags("guard")
-			c.Check(di.boolHelper, "boolDefault", token.NoPos, "boolDefault starts with `if cur != nil { return cur }`")
+			c.Check(di.boolHelper, "boolDefault", token.NoPos, "the pointer-typed settings are defaulted through a helper that returns its first argument whenever that is not nil: %v", di.boolHelper)
 			bad := map[string]string{}
 			for _, u := range di.unguarded {
 				p, _, _ := strings.Cut(u, " ")
@@ -1122,6 +1332,7 @@ func runFlags(c *core.Ctx) {
 		pos   token.Pos
 	}
 	flags := map[string]flagInfo{}
+	optRoots := map[*types.Named]bool{}
 	fieldToPaths := map[string][]string{}
 	// leaf: the value assigned to the configuration path p mentions these option fields
 	// recvAlias: inside a method of an options sub-struct that builds a part of the configuration, the receiver
@@ -1228,6 +1439,20 @@ func runFlags(c *core.Ctx) {
 				field := ""
 				if ue, ok := x.Args[0].(*ast.UnaryExpr); ok && ue.Op == token.AND {
 					field = dropRoot(selPath(ue.X))
+					// the options struct the flag is bound into
+					e := ue.X
+					for {
+						if s2, ok := e.(*ast.SelectorExpr); ok {
+							e = s2.X
+							continue
+						}
+						break
+					}
+					if tv, ok := pk.TypesInfo.Types[e]; ok {
+						if n := an.NamedOf(an.Deref(tv.Type)); n != nil {
+							optRoots[n] = true
+						}
+					}
 				}
 				def := "?"
 				if v := constOf(pk, x.Args[2]); v != nil {
@@ -1319,6 +1544,11 @@ func runFlags(c *core.Ctx) {
 	if len(flags) == 0 {
 		c.Unresolved("flags", "no pflag *Var registrations found")
 		return
+	}
+	// the value flow of the command package adds what the literal shapes above do not show (parts of the configuration
+	// built field by field in helpers and handed back by value)
+	for f, ps := range optionFlow(c, "cmd/olareg", optRoots) {
+		fieldToPaths[f] = append(fieldToPaths[f], ps...)
 	}
 	pathOwner := map[string][]string{}
 	var names []string
